@@ -3296,6 +3296,38 @@ func c15r17(c *Ctx, r *Report) {
 	r.floor("stores into Terminal.headerVisible in Terminal.Loop", n, 3)
 }
 
+// c14r19: syscall.Exec replaces the process image and returns only when it FAILS (command line over the
+// kernel's limit, shell gone). Executor.Become is called after the user interface has been closed, so a return
+// from it leaves a process with no UI, still reading the terminal (D72: the error was ignored; `become` with a
+// 250 KB command line left fzf running with a dead screen until CTRL-C). Every path behind the exec therefore
+// ends the process.
+func c14r19(c *Ctx, r *Report) {
+	l := c.L
+	r.rule("C14-R19", "A (nothing returns behind a failed exec)", "P1",
+		"in util.Executor.Become, no path leads from the call of syscall.Exec to a return of the function without passing os.Exit",
+		"a failed become leaves fzf alive with its user interface torn down: it does not respond and shows nothing until it is interrupted")
+	fn := l.Fn("util", "(*Executor).Become")
+	if fn == nil {
+		r.unest("anchors", token.NoPos, nil, "anchor util.Executor.Become", "cannot resolve")
+		return
+	}
+	n := 0
+	eachInstr(fn, func(in ssa.Instruction) {
+		call, ok := in.(*ssa.Call)
+		if !ok || calleeName(call.Common()) != "syscall.Exec" {
+			return
+		}
+		n++
+		hit := pathAvoiding(in, isReturn, func(i ssa.Instruction) bool {
+			c2, ok := i.(*ssa.Call)
+			return ok && calleeName(c2.Common()) == "os.Exit"
+		}, nil)
+		r.check(hit == nil, fmt.Sprintf("%s:exec #%d does not fall through", relName(fn), n), call.Pos(), fn,
+			"a failed exec ends in os.Exit", "when syscall.Exec fails the function returns to the event loop, whose user interface is already closed")
+	})
+	r.floor("calls of syscall.Exec in Executor.Become", n, 1)
+}
+
 // round8 runs the round-8 rules of a property (own and shared) after the property's older rules.
 func round8(c *Ctx, r *Report, prop string) {
 	switch prop {
@@ -3372,6 +3404,7 @@ func round8(c *Ctx, r *Report, prop string) {
 		c05r14(c, r) // pushers do not race on the streaming filter's slab
 		c05r16(c, r)
 	case "C14":
+		c14r19(c, r)
 		c14r17(c, r)
 		c14r18(c, r)
 		c13r11(c, r) // never stops responding: no lock-order cycle
